@@ -20,6 +20,9 @@ MODEL_INC = os.path.join(VERIF, 'model', 'include')
 CONTRACTS = os.path.join(VERIF, 'contracts')
 
 
+DEFAULT_UNWIND = 64
+
+
 class Group:
     """one goto-instrument + cbmc run: a real function enforced against one (variant) contract"""
 
@@ -135,6 +138,11 @@ def run_group(g, work, spec_checks, rulelog_cls, extra_cbmc=None):
         flags = b.get('cbmc_flags')
         if fallback_unwind:
             flags = [f for f in (flags if flags is not None else C.CBMC_FLAGS) if f != '--unwinding-assertions'] + ['--unwind', str(fallback_unwind), '--no-unwinding-assertions']
+        if '--unwind' not in (flags if flags is not None else C.CBMC_FLAGS) and '--unwind' not in extra:
+            # every loop of a function under contract is closed by a loop contract; a loop that is NOT (one that a change added)
+            # must not make the run diverge: it is unwound DEFAULT_UNWIND times with unwinding assertions, whose failure is
+            # "undecided" (no loop contract for that loop), never a violation
+            extra = extra + ['--unwind', str(DEFAULT_UNWIND)]
         r = C.cbmc(gi, log, g.timeout, extra=extra, flags=flags)
         res['cmd'] = r['cmd'].replace(gw, '<work>')
         res['solver_seconds'] = r['solver_seconds']
@@ -150,13 +158,20 @@ def run_group(g, work, spec_checks, rulelog_cls, extra_cbmc=None):
             if cls in ('postcondition', 'precondition') and f:
                 fp = f if os.path.isabs(f) else os.path.join(loc.get('workingDirectory', ''), f)
                 tags, ctext = clause_info(fp, ln)
+                if tags and 'CANARY' in tags:
+                    # a reachability canary written as a postcondition `case ==> false` (tagged /*@CANARY*/): it must FAIL,
+                    # which shows that the case is reachable under the callee contracts (no vacuous proof of that case)
+                    cls = 'canary'
             obl.append({'name': pr['name'], 'class': cls, 'status': pr['status'], 'description': pr['description'],
                         'file': os.path.basename(f), 'line': ln, 'function': loc.get('function', ''), 'tags': tags,
                         'clause': ctext, 'trace': pr['trace'] if pr['status'] == 'FAILURE' else None})
         res['obligations'] = obl
         # vacuity guards
         other = [o for o in obl if o['status'] not in ('SUCCESS', 'FAILURE')]
-        definite = [o for o in obl if o['status'] == 'FAILURE' and o['class'] not in ('canary', 'spec_text')]
+        definite = [o for o in obl if o['status'] == 'FAILURE' and o['class'] not in ('canary', 'spec_text', 'unwinding')]
+        unw = [o for o in obl if o['status'] == 'FAILURE' and o['class'] == 'unwinding']
+        if unw and not definite:
+            raise C.Undecided(f'{len(unw)} unwinding assertions failed ({unw[0]["name"]}): a loop without loop contract exceeds the unwinding bound')
         if other and not definite:
             raise C.Undecided(f'{len(other)} obligations with status {other[0]["status"]} (solver error / out of memory): ' + r['messages'][-300:])
         if other:
@@ -173,7 +188,7 @@ def run_group(g, work, spec_checks, rulelog_cls, extra_cbmc=None):
             raise C.Undecided('loop contract was dropped: no loop_invariant_step obligations generated')
         if b.get('min_obligations') and len(obl) < b['min_obligations']:
             raise C.Undecided(f'only {len(obl)} obligations generated, expected at least {b["min_obligations"]}')
-        real_fail = [o for o in obl if o['status'] == 'FAILURE' and o['class'] not in ('canary', 'spec_text')]
+        real_fail = [o for o in obl if o['status'] == 'FAILURE' and o['class'] not in ('canary', 'spec_text', 'unwinding')]
         res['status'] = 'failed' if real_fail else 'ok'
     except (C.Undecided, ExtractError, MirrorError, LoopMapError) as e:
         res['status'] = 'undecided'
@@ -189,6 +204,8 @@ def attributed(o, group_props, pid):
     """is obligation o part of property pid's proof?"""
     if o['class'] in ('canary', 'spec_text'):
         return False
+    if o['class'] == 'unwinding' and o['status'] == 'FAILURE':
+        return False  # a loop exceeded the unwinding bound: the group is undecided unless it has definite failures (run_group)
     if pid == 'C18':
         # no hidden shared state: only the frame obligations (every write stays inside the assigns clause, which names
         # object state reached through the arguments and verification ghosts, never static storage of the library)
